@@ -33,7 +33,7 @@ def _elements(kind, n, rng):
 
 
 def cases(rng, tier):
-    n_uf, n_pq, maxlen = (400, 200, 40) if tier == "quick" else (6000, 3000, 80)
+    n_uf, n_pq, maxlen = (400, 400, 40) if tier == "quick" else (6000, 6000, 80)
     for _ in range(n_uf):
         kind = rng.choice(["int", "int", "str", "tuple", "mixed"])
         ne = rng.randint(1, 12)
@@ -84,15 +84,33 @@ def cases(rng, tier):
     for _ in range(n_pq):
         L = rng.randint(1, maxlen)
         ops = []
+        regime = rng.choice(["ties", "spread", "fill-drain", "sawtooth"])
         prios = [Fraction(rng.randint(-6, 6), rng.choice([1, 1, 2, 4])) for _ in range(4)]
-        for i in range(L):
-            r = rng.random()
-            if r < 0.55:
-                w = rng.choice(prios + ["-inf", "+inf"]) if rng.random() < 0.8 else Fraction(rng.randint(-50, 50), 8)
-                ops.append(["p", i, str(w)])
-            elif r < 0.9: ops.append(["o"])
-            else: ops.append(["e"])
-        yield {"t": "pq", "ops": ops}
+
+        def prio():
+            if regime == "ties":
+                return str(rng.choice(prios + ["-inf", "+inf"])) if rng.random() < 0.8 else str(Fraction(rng.randint(-50, 50), 8))
+            if rng.random() < 0.05: return rng.choice(["-inf", "+inf"])
+            return str(Fraction(rng.randint(-400, 400), 8))
+        if regime == "fill-drain":
+            n = rng.randint(2, maxlen)
+            ops = [["p", i, prio()] for i in range(n)]
+            ops += [rng.choice([["o"], ["o"], ["o"], ["e"]]) for _ in range(n + 2)]
+        elif regime == "sawtooth":
+            i = 0
+            while len(ops) < L + 4:
+                for _ in range(rng.randint(1, 9)):
+                    ops.append(["p", i, prio()]); i += 1
+                for _ in range(rng.randint(0, 5)):
+                    ops.append(["o"])
+                if rng.random() < 0.3: ops.append(["e"])
+        else:
+            for i in range(L):
+                r = rng.random()
+                if r < 0.55: ops.append(["p", i, prio()])
+                elif r < 0.9: ops.append(["o"])
+                else: ops.append(["e"])
+        yield {"t": "pq", "ops": ops, "regime": regime}
 
 
 def model_request(case):
@@ -344,6 +362,7 @@ def nontrivial(case, obs):
 def classify(case, obs):
     ks = [case["t"] + ":" + o[0] for o in case["ops"]]
     if case["t"] == "uf": ks.append("uf-kind:" + case["kind"])
+    else: ks.append("pq-regime:" + case.get("regime", "?"))
     ks += ["err:" + r.split(";")[0] for r in obs.split(" | ") if r.startswith("err")]
     return ks
 
